@@ -27,11 +27,17 @@ MOTIONS = [
 ]
 
 
+def passive_hook(origin, target, params, state):
+    return params
+
+
 class Case:
     def __init__(self, dp):
-        self.dp = dp
-        self.st = Sut({"decimal_places": dp})
+        self.dp = abs(dp)
+        self.st = Sut({"decimal_places": abs(dp)})
         g = self.st.g
+        if dp < 0:                 # negative = same precision, with a move hook registered
+            g.add_hook(passive_hook)
         g.set_resolution(1.0)
         self.model = Model()
         self.machine = Machine()
@@ -186,16 +192,24 @@ def histories(tier):
                         out.append((12, [t1, SYNC, m1, t2, SYNC, m2]))
     # the transform is changed inside a current_transform() / named_transform() block; the block is left normally or by an
     # exception raised in its body; the moves that follow are emitted under the transform that was active before the block
-    t0s = [[], [TRANSFORMS[0]], [TRANSFORMS[1]]] if tier == "quick" else [[]] + [[t] for t in TRANSFORMS[:12]]
+    t0s = [[], [TRANSFORMS[0]], [TRANSFORMS[1]]] if tier == "quick" else [[]] + [[t] for t in TRANSFORMS[:7]]
     t1s = TRANSFORMS[:8] if tier == "quick" else TRANSFORMS[:14]
-    inner = [[], [MOTIONS[3]]] if tier == "quick" else [[], [MOTIONS[3]], [SYNC, MOTIONS[8], MOTIONS[0]]]
+    inner = [[], [MOTIONS[3]], [SYNC]] if tier == "quick" else [[], [MOTIONS[3]], [SYNC], [SYNC, MOTIONS[8], MOTIONS[0]]]
+    REL = ["set_distance_mode", ["relative"]]
     for t0 in t0s:
         for enter in ([["enter", ["current_transform"]]], [["transform.save_state", ["n"]], TRANSFORMS[4], ["enter", ["named_transform", "n"]]]):
             for t1 in t1s:
                 for mid in inner:
                     for leave in ("exit", "exit!", "exit!k"):
+                        # first move after the block: the synchronising move (the same target as the last move inside the
+                        # block when that one was the synchronising move too), or a relative move
                         for ms in motions(1 if tier == "quick" else 2):
                             out.append((12, t0 + enter + [t1] + mid + [[leave], SYNC] + ms))
+                        out.append((12, t0 + enter + [t1] + mid + [[leave], REL, MOTIONS[0], MOTIONS[4]]))
+    # a move hook is registered (hooks see and may rewrite the parameters; this one returns them unchanged)
+    for ts in seqs(TRANSFORMS[:12], 1 if tier == "quick" else 2):
+        for ms in motions(2):
+            out.append((-12, ts + [SYNC] + ms))
     return out
 
 
@@ -215,7 +229,8 @@ def run(tier, seed):
         "rule": ("histories = composition of <= 2-3 transform ops (translate, rotate about x/y/z, uniform/2-/3-factor scale, two reflections, mirrors, pivot change) + "
                  "a synchronising full-XYZ absolute move + <= 2-3 motion ops (partial-axis moves/rapids/probes, distance-mode switches, trace.arc, trace.polyline), at 12 and 5 "
                  "decimals, plus histories where the transform is changed inside a current_transform()/named_transform() block that is left normally, by an "
-                 "Exception or by a BaseException before the moves; every emitted motion word is compared with the image of the requested target/displacement under an independent pure-python affine model, every axis "
+                 "Exception or by a BaseException before the moves (first move afterwards: to the point of the last move inside the block, elsewhere, or relative), "
+                 "and histories with a pass-through move hook registered; every emitted motion word is compared with the image of the requested target/displacement under an independent pure-python affine model, every axis "
                  "whose machine coordinate must change has to be mentioned, and after every call the interpreter's machine position must equal transform(builder.position); "
                  "states = distinct (final machine position, matrix)"),
         "exhaustive": True, "exhaustive_note": "all histories of the stated shape are enumerated; the transform parameter values are fixed",
